@@ -140,6 +140,7 @@ func runC03(c *Ctx) {
 	c.r0325(pk)
 	c.r0326(pk, fd)
 	c.r0327(pk, fd)
+	c.r0328(pk)
 	// an attribute wrongly marked boolean loses its value: the table check of C17, restricted to the attribute traits
 	// an attribute value that holds code decodes to the same value only if the code was minified as the browser reads it
 	c.alsoUnder(map[string]string{"R11.9": "R03.16"}, nil, func() { c.r119() })
@@ -2052,4 +2053,125 @@ func (c *Ctx) r0327(pk *packages.Package, fd *ast.FuncDecl) {
 		return true
 	})
 	c.R.Floor(rule, "attributes with a default value comparison", n, 7)
+}
+
+// R03.28: where package html asks whether a byte of the input is a line feed, a carriage return gets the same answer.
+func (c *Ctx) r0328(pk *packages.Package) {
+	const rule = "R03.28"
+	c.R.Rule(rule, "HTML §13.2.3.5 normalises newlines before tokenisation: U+000D U+000A and a lone U+000D reach the tree builder as U+000A, so whatever the parser does with a line feed (it drops the one that follows a pre, listing or textarea start tag) it does with a carriage return of the input. The minifier reads the bytes before that normalisation. Every boolean expression in package html that compares a byte expression E with '\\n' has the same value for E = '\\r' as for E = '\\n', whatever the other atoms are (truth table over the remaining atoms; comparisons of E with other constants are evaluated)")
+	info := pk.TypesInfo
+	n := 0
+	seen := map[ast.Expr]bool{}
+	for _, fd := range load.FuncDecls(pk) {
+		ast.Inspect(fd.Body, func(z ast.Node) bool {
+			be, ok := z.(*ast.BinaryExpr)
+			if !ok || (be.Op != token.EQL && be.Op != token.NEQ) {
+				return true
+			}
+			k, isK := intConst(info, be.Y)
+			if _, xConst := intConst(info, be.X); !isK || xConst || k != '\n' {
+				return true
+			}
+			if t, isB := info.TypeOf(be.X).Underlying().(*types.Basic); !isB || (t.Kind() != types.Byte && t.Kind() != types.Uint8 && t.Kind() != types.Rune && t.Kind() != types.Int32) {
+				return true
+			}
+			// the maximal boolean expression around the comparison
+			var whole ast.Expr = be
+			for x := c.P.Parent(whole); x != nil; x = c.P.Parent(x) {
+				switch v := x.(type) {
+				case *ast.ParenExpr:
+					whole = v
+					continue
+				case *ast.UnaryExpr:
+					if v.Op == token.NOT {
+						whole = v
+						continue
+					}
+				case *ast.BinaryExpr:
+					if v.Op == token.LAND || v.Op == token.LOR {
+						whole = v
+						continue
+					}
+				}
+				break
+			}
+			if seen[whole] {
+				return true
+			}
+			seen[whole] = true
+			n++
+			subject := nospace(str(be.X))
+			var atoms []string
+			boolAtoms(whole, &atoms, map[string]bool{})
+			// atoms that compare the same subject with a constant are decided by the byte; the others are free
+			type cmp struct {
+				neq bool
+				k   int64
+			}
+			fixed := map[string]cmp{}
+			var free []string
+			var collect func(e ast.Expr)
+			collect = func(e ast.Expr) {
+				e = ast.Unparen(e)
+				switch x := e.(type) {
+				case *ast.UnaryExpr:
+					if x.Op == token.NOT {
+						collect(x.X)
+						return
+					}
+				case *ast.BinaryExpr:
+					if x.Op == token.LAND || x.Op == token.LOR {
+						collect(x.X)
+						collect(x.Y)
+						return
+					}
+					if x.Op == token.EQL || x.Op == token.NEQ {
+						if kk, ok := intConst(info, x.Y); ok && nospace(str(x.X)) == subject {
+							fixed[str(e)] = cmp{x.Op == token.NEQ, kk}
+						}
+					}
+				}
+			}
+			collect(whole)
+			for _, a := range atoms {
+				if _, ok := fixed[a]; !ok {
+					free = append(free, a)
+				}
+			}
+			construct := fmt.Sprintf("html.%s/%s compared with a line feed#%d: a carriage return is treated alike", load.FuncName(fd), subject, n)
+			if len(free) > 14 {
+				c.R.Unres(rule, construct, c.pos(be), "more than 14 free atoms in the condition")
+				return true
+			}
+			differ := ""
+			for m := 0; m < 1<<len(free) && differ == ""; m++ {
+				val := func(b int64) map[string]bool {
+					v := map[string]bool{}
+					for i, a := range free {
+						v[a] = m&(1<<i) != 0
+					}
+					for a, f := range fixed {
+						v[a] = (f.k == b) != f.neq
+					}
+					return v
+				}
+				if evalBool(whole, val('\n')) != evalBool(whole, val('\r')) {
+					var on []string
+					for i, a := range free {
+						if m&(1<<i) != 0 {
+							on = append(on, a)
+						}
+					}
+					differ = "with " + strings.Join(on, ", ") + " true and the other atoms false"
+					if len(on) == 0 {
+						differ = "with every other atom false"
+					}
+				}
+			}
+			c.R.Check(differ == "", rule, construct, c.pos(be), fmt.Sprintf("same value for '\\r' as for '\\n' under all %d valuations of the other atoms", 1<<len(free)),
+				"the condition `"+nospace(str(whole))+"` answers differently for a carriage return than for a line feed ("+differ+"): the parser turns CR and CRLF into LF before it looks at them — `<pre><!--c-->\\r\\nx</pre>` loses the line break at the start of the pre content when the comment is dropped, which `<pre><!--c-->\\nx</pre>` keeps")
+			return true
+		})
+	}
+	c.R.Floor(rule, "conditions in package html that look for a line feed", n, 1)
 }
